@@ -388,6 +388,10 @@ def special_histories(rng, flav):
                               "app=sync,cont=%d" % cont, ev + tl, [rq]))
     rq = Req(b"POST", 200, 3, 1, b"1.0", None, b"hello", False, True)
     H.append(("expect http/1.0", "app=sync", ["A"] + hs + ["R1:" + hexs(rq.head()), "R1:" + hexs(rq.payload()), "W1"] + tl, [rq]))
+    for opts in ("app=sync", "app=sync,cont=1", "app=sync,chunk=1"):
+        rq = Req(b"POST", 200, 3, 1, b"1.0", None, b"hello", True, True)
+        H.append(("expect http/1.0", opts, ["A"] + hs + ["R1:" + hexs(rq.head()), "R1:" + hexs(rq.payload()), "W1"] + tl, None))
+        H.append(("expect http/1.0", opts, ["A"] + hs + ["R1:" + hexs(rq.bytes()), "W1"] + tl, None))
     rq = Req(b"POST", 200, 3, 1, b"1.1", None, b"hello", False, True); rq.target = b"/no"
     H.append(("expect refused by handler", "app=sync,cont=1", ["A"] + hs + ["R1:" + hexs(rq.head()), "W1"] + tl, []))
     # chunked request delivered chunk by chunk
@@ -417,7 +421,8 @@ def special_histories(rng, flav):
                 H.append(("head/get pair", "app=sync,xlate=%d" % xl, ev + ["E1:eof"] + tl, [a, b_, c, b_]))
     # Connection header values
     for conn, ver in ((b"close", b"1.1"), (b"Close", b"1.1"), (b"keep-alive, close", b"1.1"), (b"keep-alive", b"1.1"), (b"keep-alive", b"1.0"), (None, b"1.0"), (None, b"1.1"),
-                      (None, b"0.9"), (None, b"2.0")):
+                      (None, b"0.9"), (None, b"2.0"), (b"close ", b"1.1"), (b"close , TE", b"1.1"), (b"TE, Close\t", b"1.1"), (b"close,TE", b"1.1"), (b"TE,  cLoSe", b"1.1"),
+                      (b"TE ,close", b"1.1"), (b"\tclose", b"1.1")):
         for blen in (0, 5, 3000):
             rq = Req(b"GET", 200, blen, 1, ver, conn, host=(ver != b"0.9" or True))
             nxt = Req()
